@@ -21,6 +21,7 @@ pub mod events {
 
 pub mod drivers {
     include!(concat!(env!("GREVM_VERIF_DIR"), "/inside/drivers.rs"));
+    pub use crate::scheduler::verif_drivers as sched;
 }
 
 pub use events::{Event, event};
